@@ -207,19 +207,25 @@ def _mutants(m: int, mask: int) -> bool:
 FRAG = ("Fa", "Fb", "Fc")
 
 
-def _cycles(adj: int, order: int) -> bool:
+PLACES = ("best { ...%s }", "...%s", "best { ...%s best { ...%s } }", "...%s best { ...%s }", "friends { ...%s } best { ...%s }")
+
+
+def _cycles(adj: int, order: int, place: int = 0) -> bool:
     """
-    pre: 0 <= adj < 512 and 0 <= order < 6
+    pre: 0 <= adj < 512 and 0 <= order < 6 and 0 <= place < len(PLACES)
+    pre: place == 0 or order == 0 or thorough()
     pre: shard_of(adj)
     post: _
     """
     AD = concrete_int(adj, 0, 511)
+    PL = pick(place, PLACES)
     perm = pick(order, tuple(itertools.permutations(range(3))))
     with untraced():
         edges = {(i, j) for i in range(3) for j in range(3) if AD >> (i * 3 + j) & 1}
         defs = []
         for i in range(3):
-            spreads = " ".join("best { ...%s }" % FRAG[j] for j in range(3) if (i, j) in edges)
+            # where a spread sits: below a field, directly, at TWO depths of the same fragment, directly and below a field, under two sibling fields
+            spreads = " ".join(PL.replace("%s", FRAG[j]) for j in range(3) if (i, j) in edges)
             defs.append("fragment %s on User { name %s }" % (FRAG[i], spreads))
         text = "{ me { ...Fa ...Fb ...Fc } } " + " ".join(defs[i] for i in perm)
         # reference: some fragment reaches itself (spec 5.5.2.2)
@@ -575,9 +581,10 @@ CONDITIONS = [
                "x 3 ways of reaching the usage (operation, fragment, nested fragments defined before the operation): VariablesInAllowedPosition reports exactly when IsVariableUsageAllowed is false, and nothing else is reported" % (len(VAR_TYPES), len(VAR_POSITIONS)),
          symbolic={"vt": "choice: variable type", "vd": "choice: variable default", "pos": "choice: position", "via": "choice: nesting"},
          assumptions=["reference: IsVariableUsageAllowed / AreTypesCompatible transcribed from spec 5.8.5"], witness={"vt": 0, "vd": 1, "pos": 1, "via": 1}),
-    Cond(name="cycles", fn=_cycles, quick=100, thorough=300, shards_quick=8, shards_thorough=8, per_path=60,
-         bound="EVERY directed spread graph on 3 fragments (512 adjacency matrices incl. self loops) x all 6 definition orders: NoFragmentCycles reports iff some fragment reaches itself",
-         symbolic={"adj": "choice: adjacency matrix", "order": "choice: definition order"}, witness={"adj": 2, "order": 0}),
+    Cond(name="cycles", fn=_cycles, quick=150, thorough=600, shards_quick=16, shards_thorough=16, per_path=60,
+         bound="EVERY directed spread graph on 3 fragments (512 adjacency matrices incl. self loops) x all 6 definition orders x 5 placements of a spread (below a field, directly, at two depths of the same fragment, directly and below a field, "
+               "under two sibling fields; quick: the extra placements in one order): NoFragmentCycles reports iff some fragment reaches itself, and no rule raises (the whole chain runs)",
+         symbolic={"adj": "choice: adjacency matrix", "order": "choice: definition order", "place": "choice: where the spreads sit"}, witness={"adj": 2, "order": 0, "place": 0}),
     Cond(name="variables_through_fragments", fn=_variables_through_fragments, quick=60, thorough=120, shards_quick=6, shards_thorough=6,
          bound="variable used at depth 0..3 of a fragment chain and/or in the operation, defined or not, all 6 fragment definition orders, the operation anonymous / named Q / named like one of the fragments (separate namespaces): exactly NoUndefinedVariables / NoUnusedVariables as the spec says",
          symbolic={"order": "choice", "defined": "choice", "depth": "choice", "used_in_op": "choice"}, witness={"order": 0, "defined": True, "depth": 3, "used_in_op": False, "opname": 0}),
